@@ -85,7 +85,7 @@ fn judge_dt(rec: &mut Rec, i: i128, o: i32) {
     let r = trap(|| {
         let x = base.set_offset(Offset::Fixed(o));
         let same = (x == base, x.cmp(&base), base.cmp(&x), x.nanos_since(&base), x.seconds_since(&base), x.days_since(&base), x.duration_between(&base).as_nanos());
-        let sh = shifted.as_ref().map(|(e, _)| (getters(&x), getters(e), x.format(PATTERN), format!("{} {}", e.format("yyyy MM dd HH mm ss nnnnn"), fmt_offset_x5(o))));
+        let sh = shifted.as_ref().map(|(e, _)| (getters(&x), getters(e), format!("{} | {}", x.format(PATTERN), x), format!("{} {} | {}", e.format("yyyy MM dd HH mm ss nnnnn"), fmt_offset_x5(o), e)));
         // as_offset on the offset-free value: keeps the displayed fields, moves the instant by −o
         let y = base.as_offset(Offset::Fixed(o));
         let yg = (y.year(), y.month(), y.day(), y.hour(), y.minute(), y.second(), y.nano());
@@ -110,7 +110,7 @@ fn judge_dt(rec: &mut Rec, i: i128, o: i32) {
                     rec.violation(format!("C10|datetime|getters|not-the-shifted-instant's-fields|{}", cls), || wit(json!({"getters(y,m,d,doy,wd,h,m,s,ms,us,ns)": format!("{:?}", g), "getters of the offset-free value of instant+offset": format!("{:?}", eg)})));
                 }
                 if fmt != want {
-                    rec.violation(format!("C10|datetime|format|not-the-shifted-instant's-fields|{}", cls), || wit(json!({"pattern": PATTERN, "expected (format of the offset-free value of instant+offset, then the offset)": want, "observed": fmt})));
+                    rec.violation(format!("C10|datetime|format|not-the-shifted-instant's-fields|{}", cls), || wit(json!({"pattern": PATTERN, "expected (format and to_string() of the offset-free value of instant+offset, then the offset)": want, "observed (format | to_string())": fmt})));
                 }
             }
             match diff_with_expected(&y, i - o as i128 * NS, o) {
@@ -141,6 +141,33 @@ fn judge_dt(rec: &mut Rec, i: i128, o: i32) {
     }
     if rec.want_sample() {
         rec.sample(|| wit(json!({"model_format": fmt_local(local, o)})));
+    }
+}
+
+/// "set_offset leaves the instant (timestamp, ordering, differences) unchanged" for TWO different instants: every
+/// relation between a and b reads the same whether or not the two carry (different) offsets.  Relative — no model.
+fn judge_dt_pair(rec: &mut Rec, i: i128, j: i128, o1: i32, o2: i32) {
+    rec.eval();
+    rec.api("DateTime relations under set_offset");
+    rec.bin("pair/relations-unchanged-by-offsets");
+    rec.nontrivial(hash_i128s(&[i, j, o1 as i128, o2 as i128, 0x1010]));
+    let (Some((a, _)), Some((b, _))) = (sane_value(i, 0), sane_value(j, 0)) else {
+        rec.bin(SKIP_START);
+        return;
+    };
+    let rel = |x: &DateTime, y: &DateTime| format!("eq={} cmp={:?} ns={} us={} ms={} s={} min={} h={} d={} between={:?} ts=({},{})", x == y, x.cmp(y), x.nanos_since(y), x.micros_since(y), x.millis_since(y), x.seconds_since(y), x.minutes_since(y), x.hours_since(y), x.days_since(y), x.duration_between(y), x.timestamp(), y.timestamp());
+    let r = trap(|| {
+        let (ao, bo) = (a.set_offset(Offset::Fixed(o1)), b.set_offset(Offset::Fixed(o2)));
+        (rel(&a, &b), rel(&ao, &bo), rel(&ao, &b), rel(&bo, &ao), rel(&b, &a))
+    });
+    let wit = |obs: Value| json!({"a_utc": show(i), "a_offset": o1, "b_utc": show(j), "b_offset": o2, "observed": obs});
+    match r {
+        Err(p) => rec.violation(format!("C10|datetime-pair|relations|panic|{},{}", p.class, p.site()), || wit(p.to_json())),
+        Ok((plain, both, one, rev_off, rev_plain)) => {
+            if plain != both || plain != one || rev_off != rev_plain {
+                rec.violation("C10|datetime-pair|set_offset|ordering-or-difference-changed".to_string(), || wit(json!({"offset-free a vs b": plain, "a+o1 vs b+o2": both, "a+o1 vs b": one, "offset-free b vs a": rev_plain, "b+o2 vs a+o1": rev_off})));
+            }
+        }
     }
 }
 
@@ -305,6 +332,14 @@ pub fn run(ctx: &Ctx) -> PropResult {
         };
         judge_dt(rec, i, super::c09::gen_c09_offset(rng, i));
     }));
+    wls.push(Workload::cases("pairs_under_different_offsets", ctx.count(60_000, 1_000_000), |rec, _, rng| {
+        let p = super::pairs::gen_pair(rng);
+        let (lo, hi) = (MIN_INSTANT + 2 * D, MAX_INSTANT - 2 * D);
+        // half of the pairs closer together than the two offsets differ: where a comparison made on local readings
+        // instead of instants gets the order wrong
+        let j = if rng.chance(1, 2) { (p.i + rng.range_i128(-172_800, 172_800) * NS + rng.range_i128(0, NS - 1)).clamp(lo, hi) } else { p.j };
+        judge_dt_pair(rec, p.i.clamp(lo, hi), j, p.o1, p.o2);
+    }));
     let tper = ctx.n(2, 16);
     wls.push(Workload::cases("time_all_offsets", n_off * tper, move |rec, idx, rng| {
         let o = (idx % n_off) as i32 - 86_399;
@@ -352,6 +387,7 @@ pub fn run(ctx: &Ctx) -> PropResult {
         per, PATTERN, tper
     );
     meta.required_bins = vec![
+        "pair/relations-unchanged-by-offsets",
         "shift/across-0001-01-01", "shift/across-year-end", "shift/across-month-end", "shift/across-midnight", "shift/same-date",
         "offset/with-seconds", "offset/with-minutes", "offset/whole-hours", "time/wraps-below-midnight", "time/wraps-past-midnight", "time/no-wrap",
         "offset-ctor/accept", "offset-ctor/reject", "walk/with-judged-steps", "time/local-reading-exactly-midnight",
